@@ -50,9 +50,14 @@ def gen_history(rng: random.Random, nworkers: int, configs, hist_id: str):
         elif k < 0.16:
             ops.append({"op": "build_fresh", "w": w, "hid": new_h(w),
                         "recipe": rng.randrange(len(recipes))})
-        elif k < 0.34:
+        elif k < 0.32:
             ops.append({"op": "mutate", "w": w, "src": rng.choice(hs),
                         "hid": new_h(w), "mseed": rng.randrange(10 ** 9)})
+        elif k < 0.34:
+            h_new = new_h(w)
+            handles[w].append(h_new + "t")
+            ops.append({"op": "api_derive", "w": w, "src": rng.choice(hs),
+                        "hid": h_new, "seed": rng.randrange(10 ** 6)})
         elif k < 0.39:
             ops.append({"op": "reorder", "w": w, "src": rng.choice(hs),
                         "hid": new_h(w)})
@@ -63,14 +68,18 @@ def gen_history(rng: random.Random, nworkers: int, configs, hist_id: str):
             ops.append({"op": "relayout", "w": w, "src": rng.choice(hs),
                         "hid": new_h(w), "seed": rng.randrange(10 ** 6)})
         elif k < 0.47:
+            h_new = new_h(w)
+            handles[w].append(h_new + "t")      # its twin (see fleet_ops)
             ops.append({"op": "api_derive", "w": w, "src": rng.choice(hs),
-                        "hid": new_h(w), "seed": rng.randrange(10 ** 6)})
+                        "hid": h_new, "seed": rng.randrange(10 ** 6)})
         elif k < 0.49:
             ops.append({"op": "sub", "w": w, "src": rng.choice(hs),
                         "hid": new_h(w), "index": rng.randrange(1000)})
-        elif k < 0.59:
+        elif k < 0.57:
             ops.append({"op": "hash", "w": w, "hid": rng.choice(hs),
                         "deep": rng.random() < 0.5})
+        elif k < 0.59:
+            ops.append({"op": "loopy_codegen", "w": w, "hid": rng.choice(hs)})
         elif k < 0.64:
             ops.append({"op": "key", "w": w, "hid": rng.choice(hs)})
         elif k < 0.76:
@@ -203,6 +212,11 @@ def run_history(fl: Fleet, hist, with_keys=True, stats=None, key_table=None):
                     if not r.get("derived"):
                         continue
                     bump("api_derived_after_possible_caching")
+                    if r.get("twin"):
+                        live[w].add(op["hid"] + "t")
+                        info[op["hid"] + "t"] = dict(r)
+                        if op["src"] in tainted:
+                            tainted.add(op["hid"] + "t")
                 if kind == "deepcopy" and r.get("leaks"):
                     viol.append({"class": "cached-hash-survived-deepcopy",
                                  "op_index": idx, "detail": str(r["leaks"][:5])})
@@ -221,6 +235,11 @@ def run_history(fl: Fleet, hist, with_keys=True, stats=None, key_table=None):
                     viol.append({"class": "hashing-added-picklable-state",
                                  "op_index": idx,
                                  "detail": f"{before} -> {after} bytes"})
+            elif kind == "loopy_codegen":
+                if op["hid"] not in live[w]:
+                    continue
+                r = wk.call("loopy_codegen", hid=op["hid"])
+                bump("loopy_codegen_" + r.split(":")[0])
             elif kind == "key":
                 if op["hid"] not in live[w] or not with_keys:
                     continue
